@@ -90,6 +90,8 @@ KANI_UNITS = [
                "DoubleOpsWrapper's std traits are the DoubleOps methods"),
              H("vec_f64_pair_laws_len2", "C14.K.vec_f64.laws_len2", P, ["DoubleOps for Vec<T>::cmp", "DoubleOps for Vec<T>::eq"],
                "L1-L3 for pairs of Vec<f64> of length <= 2", kind="bounded", bound="len <= 2", timeout=600),
+             H("vec_f64_pair_laws_len12_one_difference", "C14.K.vec_f64.laws_len12_one_difference", P, ["DoubleOps for Vec<T>::cmp", "DoubleOps for Vec<T>::eq"],
+               "two 12-element lists differing in at most one arbitrary position by an arbitrary double: eq, cmp == Equal and antisymmetry agree with the element", kind="bounded", bound="len 12, one free element", timeout=600),
              H("vec_f64_hash_len2", "C14.K.vec_f64.hash_len2", P, ["DoubleOps for Vec<T>::hash"],
                "equal vectors feed the hasher identical streams", kind="bounded", bound="len <= 2", timeout=600),
              H("vec_f64_trans_len2", "C14.K.vec_f64.trans_len2", P, ["DoubleOps for Vec<T>::cmp"],
